@@ -12,6 +12,7 @@ Section MultiLevelProofs.
   Context {X : Type}.
   Notation V := (X -> K).
   Variable t0 : K.
+  Variable imex : bool.
   Local Infix "+!" := kadd (at level 50, left associativity).
   Local Infix "*!" := kmul (at level 40, left associativity).
   Local Infix "-!" := ksub (at level 50, left associativity).
@@ -19,17 +20,19 @@ Section MultiLevelProofs.
   Notation level := (@level K X).
   Notation xfer := (@xfer K X).
   Notation lstate := (@lstate K X).
-  Notation sweep1 := (sweep1 kO kadd kmul ksub keqb t0).
-  Notation sweepn := (sweepn kO kadd kmul ksub keqb t0).
-  Notation vcycle := (vcycle kO kadd kmul ksub keqb t0).
-  Notation restrict_to := (restrict_to kO kadd kmul ksub t0).
+  Notation sweep1 := (sweep1 kO kadd kmul ksub keqb t0 imex).
+  Notation sweepn := (sweepn kO kadd kmul ksub keqb t0 imex).
+  Notation vcycle := (vcycle kO kadd kmul ksub keqb t0 imex).
+  Notation restrict_to := (restrict_to kO kadd kmul ksub t0 imex).
+  Notation np := (nparts imex).
   Notation prolong_from := (prolong_from kadd kmul ksub t0).
 
   (* what is assumed of a level: the solver contract (uniqueness half), extensionality of eval_f, a lower
      triangular preconditioner whose diagonal is decided by the code's own test *)
   Definition level_ok (L : level) : Prop :=
     solver_left_inverse kmul ksub (lsolve L) (lfeval L) 0 /\ feval_ext (lfeval L) /\ lower_triangular kO (lQI L) /\
-    (forall m, 1 <= m <= lM L -> ldt L *! lQI L m m <> kO \/ keqb (ldt L *! lQI L m m) kO = true).
+    (if imex then strictly_lower_triangular kO (lQE L)
+     else forall m, 1 <= m <= lM L -> ldt L *! lQI L m m <> kO \/ keqb (ldt L *! lQI L m m) kO = true).
   (* what is assumed of a transfer: linear space operators, rows of Rcoll summing to one *)
   Definition xfer_ok (T : xfer) (Lf Lc : level) : Prop :=
     (forall a b x, xRs T (vadd kadd a b) x = xRs T a x +! xRs T b x) /\
@@ -46,9 +49,14 @@ Section MultiLevelProofs.
     forall m, 1 <= m <= M -> (tau 1 = None <-> tau m = None).
 
   (* the level holds the solution of ITS collocation problem (with its FAS correction tau) *)
+  (* zero defect = the collocation equation  U = u0 + dt Q F(U) + tau  with F the sum of all right-hand-side parts
+     (residual_zero_iff_collocation / residual_zero_iff_collocation2) *)
+  Definition zero_defect (L : level) (tau : nat -> option V) (s : lstate) : Prop :=
+    forall m, 1 <= m <= lM L -> forall x,
+      residual_vec kO kadd kmul ksub (lM L) (ldt L) (lQ L) np (fst s) (snd s) tau m x = kO.
   Definition holds_solution (L : level) (tau : nat -> option V) (s : lstate) : Prop :=
     consistent kadd kmul (lM L) (ldt L) t0 (lnodes L) (lfeval L) (fst s) (snd s) /\
-    collocation1 kO kadd kmul (lM L) (ldt L) (lQ L) (fst s) (snd s) tau /\
+    zero_defect L tau s /\
     tau_uniform (lM L) tau.
 
   (* same values (initial value and all nodes) and same right-hand sides at the nodes, pointwise *)
@@ -65,39 +73,58 @@ Section MultiLevelProofs.
     - rewrite A2 by assumption. apply B2. assumption.
   Qed.
 
+  Lemma ftot_ext n (g h : nat -> V) x : (forall p, g p x = h p x) -> ftot kO kadd n g x = ftot kO kadd n h x.
+  Proof. intros E. induction n as [|n IH]; cbn [ftot]; [reflexivity|]. unfold vadd. rewrite IH, E. reflexivity. Qed.
+
   Lemma holds_solution_same L tau s s' :
     feval_ext (lfeval L) -> holds_solution L tau s -> same L s' s -> holds_solution L tau s'.
   Proof.
-    intros Hext (Hcons & Hcoll & Htau) [Su Sf]. split; [|split]; [| |exact Htau].
+    intros Hext (Hcons & Hz & Htau) [Su Sf]. split; [|split]; [| |exact Htau].
     - intros m Hm p x. rewrite (Sf m Hm), (Hcons m Hm). symmetry. apply Hext. intros y. apply Su. lia.
-    - intros m Hm x. rewrite (Su m) by lia. rewrite (Su 0) by lia. rewrite (Hcoll m Hm x).
-      f_equal. f_equal. f_equal. apply sumf_ext. intros j Hj. rewrite (Sf j) by lia. reflexivity.
+    - intros m Hm x. etransitivity; [|exact (Hz m Hm x)].
+      rewrite !(residual_is_defect kO kI kadd kmul ksub kopp Rth).
+      rewrite (Su m) by lia. rewrite (Su 0) by lia.
+      f_equal. f_equal. f_equal. f_equal. apply sumf_ext. intros j Hj. f_equal. apply ftot_ext. intros p. apply Sf. lia.
   Qed.
 
-  (* frame of a generic_implicit sweep (no law needed): the initial value is untouched, and the stored
-     right-hand sides are those of the new values *)
+  (* frame of a sweep (no law needed): the initial value is untouched, and the stored right-hand sides are those of the
+     new values *)
   Lemma sweep1_frame L tau (s : lstate) :
     fst (sweep1 L tau s) 0 = fst s 0 /\
     forall m, 1 <= m <= lM L ->
       snd (sweep1 L tau s) m = lfeval L (tnode kadd kmul (ldt L) t0 (lnodes L) m) (fst (sweep1 L tau s) m).
   Proof.
-    unfold MultiLevel.sweep1, gi_update, update_nodes.
-    pose proof (sweep_loop_spec kO kadd kmul (ldt L) t0 (lnodes L) 1 (lfeval L) (fun _ => lQI L)
-                  (gi_node_solve kO kadd kmul keqb (ldt L) t0 (lnodes L) (lsolve L) (lQI L))
-                  1 (gather kO kadd kmul ksub (lM L) (ldt L) (lQ L) 1 (fun _ => lQI L) 1 (fst s 0) (snd s) tau)
-                  (lM L) 1 (fst s) (snd s) (le_n 1)) as S.
-    cbv zeta in S. destruct S as [Sf Sn]. split.
-    - apply Sf. lia.
-    - intros m Hm. apply Sn. lia.
+    unfold MultiLevel.sweep1. destruct imex.
+    - unfold imex_update, update_nodes.
+      pose proof (sweep_loop_spec kO kadd kmul (ldt L) t0 (lnodes L) 2 (lfeval L) (fun p => if Nat.eqb p 0 then lQI L else lQE L)
+                    (imex_node_solve kadd kmul (ldt L) t0 (lnodes L) (lsolve L) (lQI L))
+                    1 (gather kO kadd kmul ksub (lM L) (ldt L) (lQ L) 2 (fun p => if Nat.eqb p 0 then lQI L else lQE L) 1 (fst s 0) (snd s) tau)
+                    (lM L) 1 (fst s) (snd s) (le_n 1)) as S.
+      cbv zeta in S. destruct S as [Sf Sn]. split; [apply Sf; lia | intros m Hm; apply Sn; lia].
+    - unfold gi_update, update_nodes.
+      pose proof (sweep_loop_spec kO kadd kmul (ldt L) t0 (lnodes L) 1 (lfeval L) (fun _ => lQI L)
+                    (gi_node_solve kO kadd kmul keqb (ldt L) t0 (lnodes L) (lsolve L) (lQI L))
+                    1 (gather kO kadd kmul ksub (lM L) (ldt L) (lQ L) 1 (fun _ => lQI L) 1 (fst s 0) (snd s) tau)
+                    (lM L) 1 (fst s) (snd s) (le_n 1)) as S.
+      cbv zeta in S. destruct S as [Sf Sn]. split; [apply Sf; lia | intros m Hm; apply Sn; lia].
   Qed.
 
   Lemma sweep1_fixed L tau s :
     level_ok L -> holds_solution L tau s -> same L (sweep1 L tau s) s.
   Proof.
-    intros (Hli & Hext & Htri & Hdec) (Hcons & Hcoll & _).
+    intros (Hli & Hext & Htri & Hkind) (Hcons & Hz & _).
     assert (Hu : forall m, 1 <= m <= lM L -> forall x, fst (sweep1 L tau s) m x = fst s m x).
-    { exact (gi_collocation_is_fixed_point kO kI kadd kmul ksub kopp keqb Rth keqb_true (lM L) (ldt L) t0 (lnodes L) (lQ L)
-               (lsolve L) (lfeval L) (lQI L) (fst s) (snd s) tau Hli Hext Htri Hcons Hdec Hcoll). }
+    { unfold MultiLevel.sweep1. unfold zero_defect, nparts in Hz. destruct imex.
+      - apply (imex_collocation_is_fixed_point kO kI kadd kmul ksub kopp Rth (lM L) (ldt L) t0 (lnodes L) (lQ L)
+                 (lsolve L) (lfeval L) (lQI L) (lQE L) (fst s) (snd s) tau Hli Hext Htri Hkind Hcons).
+        intros m Hm x.
+        apply (proj1 (residual_zero_iff_collocation2 kO kI kadd kmul ksub kopp Rth (lM L) (ldt L) (lQ L) (fst s) (snd s) tau m x)).
+        apply Hz. exact Hm.
+      - apply (gi_collocation_is_fixed_point kO kI kadd kmul ksub kopp keqb Rth keqb_true (lM L) (ldt L) t0 (lnodes L) (lQ L)
+                 (lsolve L) (lfeval L) (lQI L) (fst s) (snd s) tau Hli Hext Htri Hcons Hkind).
+        intros m Hm x.
+        apply (proj1 (residual_zero_iff_collocation kO kI kadd kmul ksub kopp Rth (lM L) (ldt L) (lQ L) (fst s) (snd s) tau m x)).
+        apply Hz. exact Hm. }
     destruct (sweep1_frame L tau s) as [H0 Hf].
     split.
     - intros m Hm x. destruct (Nat.eq_dec m 0) as [->|Hne]; [rewrite H0; reflexivity | apply Hu; lia].
@@ -119,18 +146,14 @@ Section MultiLevelProofs.
     let G := restrict_to T Lf Lc tau s in
     holds_solution Lc (Gtau G) (Gu G, Gf G).
   Proof.
-    intros (Radd & Rsub & Rzero & Rext & _ & _ & Hrow) (Hcons & Hcoll & Htau) G.
+    intros (Radd & Rsub & Rzero & Rext & _ & _ & Hrow) (Hcons & Hz & Htau) G.
     split; [|split].
     - intros k Hk p z. unfold G, MultiLevel.restrict_to, Transfer.restrict. cbn [Gu Gf fst snd].
       replace (Nat.eqb k 0) with false by (symmetry; apply Nat.eqb_neq; lia). reflexivity.
-    - intros k Hk z. cbn [fst snd].
-      apply (proj1 (residual_zero_iff_collocation kO kI kadd kmul ksub kopp Rth (lM Lc) (ldt Lc) (lQ Lc) (Gu G) (Gf G) (Gtau G) k z)).
-      unfold G, MultiLevel.restrict_to.
+    - intros k Hk z. cbn [fst snd]. unfold G, MultiLevel.restrict_to.
       apply (restricted_solution_has_zero_coarse_defect kO kI kadd kmul ksub kopp Rth (lM Lf) (lM Lc) (ldt Lf) (ldt Lc) t0
-               (lnodes Lc) (lQ Lf) (lQ Lc) (lfeval Lc) (xRs T) (xRcoll T) Radd Rsub Rzero (fst s) (snd s) tau Htau).
-      + intros m Hm y.
-        apply (proj2 (residual_zero_iff_collocation kO kI kadd kmul ksub kopp Rth (lM Lf) (ldt Lf) (lQ Lf) (fst s) (snd s) tau m y)).
-        apply Hcoll. exact Hm.
+               (lnodes Lc) (lQ Lf) (lQ Lc) (lfeval Lc) (xRs T) (xRcoll T) Radd Rsub Rzero np (fst s) (snd s) tau Htau).
+      + exact Hz.
       + exact Rext.
       + exact Hk.
       + apply Hrow. exact Hk.
@@ -187,7 +210,7 @@ Section MultiLevelProofs.
       { intros m Hm y. rewrite (Hc m) by lia. cbn [fst]. unfold G, MultiLevel.restrict_to, Transfer.restrict. cbn [Gu Guold]. reflexivity. }
       assert (Hscf : forall m, 1 <= m <= lM Lc -> forall p y, snd sc m p y = Gfold G m p y).
       { intros m Hm p y. rewrite (Hcf m Hm). cbn [snd]. unfold G, MultiLevel.restrict_to, Transfer.restrict. cbn [Gf Gfold]. reflexivity. }
-      destruct Hs1 as (Hcons1 & Hcoll1 & Htau1).
+      destruct Hs1 as (Hcons1 & Hz1 & Htau1).
       pose proof (prolong_same T L Lc G sc s1 Hx Hext Hcons1 Hsc Hscf) as H2. cbv zeta in H2.
       set (s2 := prolong_from T L Lc {| Gu := fst sc; Gf := snd sc; Gtau := Gtau G; Guold := Guold G; Gfold := Gfold G |} s1) in *.
       assert (Hs2 : holds_solution L tau s2).
@@ -196,3 +219,23 @@ Section MultiLevelProofs.
       apply (same_trans L _ s1); assumption.
   Qed.
 End MultiLevelProofs.
+
+Section ZeroDefect.
+  Context {K : Type} (kO kI : K) (kadd kmul ksub : K -> K -> K) (kopp : K -> K).
+  Hypothesis Rth : ring_theory kO kI kadd kmul ksub kopp (@eq K).
+  Context {X : Type}.
+  Lemma zero_defect_collocation1 (L : @level K X) tau (s : @lstate K X) :
+    zero_defect kO kadd kmul ksub false L tau s <-> collocation1 kO kadd kmul (lM L) (ldt L) (lQ L) (fst s) (snd s) tau.
+  Proof.
+    unfold zero_defect, collocation1, nparts. split; intros H m Hm x.
+    - apply (proj1 (residual_zero_iff_collocation kO kI kadd kmul ksub kopp Rth (lM L) (ldt L) (lQ L) (fst s) (snd s) tau m x)). apply H; exact Hm.
+    - apply (proj2 (residual_zero_iff_collocation kO kI kadd kmul ksub kopp Rth (lM L) (ldt L) (lQ L) (fst s) (snd s) tau m x)). apply H; exact Hm.
+  Qed.
+  Lemma zero_defect_collocation2 (L : @level K X) tau (s : @lstate K X) :
+    zero_defect kO kadd kmul ksub true L tau s <-> collocation2 kO kadd kmul (lM L) (ldt L) (lQ L) (fst s) (snd s) tau.
+  Proof.
+    unfold zero_defect, collocation2, nparts. split; intros H m Hm x.
+    - apply (proj1 (residual_zero_iff_collocation2 kO kI kadd kmul ksub kopp Rth (lM L) (ldt L) (lQ L) (fst s) (snd s) tau m x)). apply H; exact Hm.
+    - apply (proj2 (residual_zero_iff_collocation2 kO kI kadd kmul ksub kopp Rth (lM L) (ldt L) (lQ L) (fst s) (snd s) tau m x)). apply H; exact Hm.
+  Qed.
+End ZeroDefect.
